@@ -635,12 +635,13 @@ def dist(r, k):
 
 
 def span_overlap_test(span, k, min_ov):
-    """'an intron overlapped by the read's span': shares >= min_ov positions, or the span lies inside it ending before
-    its end, or the span contains it (the reading of overlaps_at_least proved as C19.overlaps_at_least_spec)"""
+    """'an intron overlapped by the read's span': shares >= min_ov positions, or the span lies inside it, or the span
+    contains it (the reading of overlaps_at_least proved as C19.overlaps_at_least_spec; since the repair of audit2-C G7
+    "inside" no longer excludes a span that ends exactly at the intron's end)"""
     lo, hi = max(span[0], k[0]), min(span[1], k[1])
     if lo > hi:
         return False
-    return (hi - lo + 1 >= min_ov) or (k[0] <= span[0] and span[1] < k[1]) or (span[0] <= k[0] and k[1] <= span[1])
+    return (hi - lo + 1 >= min_ov) or (k[0] <= span[0] and span[1] <= k[1]) or (span[0] <= k[0] and k[1] <= span[1])
 
 
 def hyp_ok(K, R, d):
